@@ -38,7 +38,8 @@ Inductive reach : state -> list block -> N -> Prop :=
 | reach_batch s C hm rs bs s' :
     reach s C hm -> wf_batch C rs bs -> batch s rs bs = Ok s' ->
     reach s' (chain_after C rs bs) (hmax_after hm bs)
-| reach_reset s C hm : reach s C hm -> reach (reset s) [] 0.
+| reach_reset s C hm : reach s C hm -> reach (reset s) [] 0
+| reach_renew s C hm c r : reach s C hm -> reach (fst (step s (Renew c r))) C hm.
 
 Lemma idx_eqb_eq a b : idx_eqb a b = true <-> a = b.
 Proof.
@@ -220,6 +221,23 @@ Proof.
     + destruct (IH t' eq_refl e' He') as [e0 [H0 R]]. exists e0. split; [right; exact H0|exact R].
 Qed.
 
+(** * The refresh of the code touches every row *)
+Lemma row_sel_all cs rn e : row_sel sel_all cs rn e = true.
+Proof. unfold row_sel, sel_all. destruct (alookup (ce_cid e) cs); reflexivity. Qed.
+
+Lemma crefresh_apply_full sel cs rn b l : (forall e, In e l -> row_sel sel cs rn e = true) ->
+  crefresh_apply sel cs rn b l = cupd_apply b l.
+Proof.
+  intros H. unfold crefresh_apply, cupd_apply. apply map_ext_in. intros e He. rewrite (H e He). reflexivity.
+Qed.
+
+Lemma crefresh_revert_full sel cs rn b : forall l, (forall e, In e l -> row_sel sel cs rn e = true) ->
+  crefresh_revert sel cs rn b l = cupd_revert b l.
+Proof.
+  induction l as [|e t IH]; intros H; cbn [crefresh_revert cupd_revert]; [reflexivity|].
+  rewrite (H e (or_introl eq_refl)), IH; [reflexivity|]. intros x Hx. apply H. right. exact Hx.
+Qed.
+
 (** * One block *)
 Definition new_iel (b : block) : ielem := {| ie_idx := b_idx b; ie_basis := Some (b_idx b) |}.
 Definition expire (h : N) (l : list ielem) : list ielem :=
@@ -231,7 +249,8 @@ Lemma apply_block_shape s b s' : apply_block s b = Ok s' ->
     ielems s' = expire (ih (b_idx b)) (iset (new_iel b) (iupd_apply b (ielems s1))) /\
     tip s' = tip s1 /\ contracts s' = contracts s1.
 Proof.
-  unfold apply_block. destruct (fold_res (apply_event b) (grouped (b_events b)) s) as [s1| |]; cbn [bind]; try discriminate.
+  unfold apply_block, apply_block_g. destruct (fold_res (apply_event b) (grouped (b_events b)) s) as [s1| |]; cbn [bind]; try discriminate.
+  rewrite (crefresh_apply_full sel_all _ _ b (celems s1) (fun e _ => row_sel_all _ _ e)).
   intros [= <-]. exists s1. cbn. unfold expire, new_iel. repeat split; reflexivity.
 Qed.
 
@@ -241,7 +260,8 @@ Lemma revert_block_shape s b s' : revert_block s b = Ok s' ->
     iupd_revert b (filter (fun e => negb (idx_eqb (ie_idx e) (b_idx b))) (ielems s1)) = Ok (ielems s') /\
     tip s' = tip s1 /\ contracts s' = contracts s1.
 Proof.
-  unfold revert_block. destruct (fold_res revert_event (grouped (b_events b)) s) as [s1| |]; cbn [bind]; try discriminate.
+  unfold revert_block, revert_block_g. destruct (fold_res revert_event (grouped (b_events b)) s) as [s1| |]; cbn [bind]; try discriminate.
+  rewrite (crefresh_revert_full sel_all _ _ b (celems s1) (fun e _ => row_sel_all _ _ e)).
   destruct (iupd_revert b (filter (fun e => negb (idx_eqb (ie_idx e) (b_idx b))) (ielems s1))) as [ie| |] eqn:Ei; cbn [bind]; try discriminate.
   destruct (cupd_revert b (celems s1)) as [ce| |] eqn:Ec; cbn [bind]; try discriminate.
   intros [= <-]. exists s1. cbn. repeat split; auto.
@@ -351,9 +371,9 @@ Lemma batch_phases s rs bs s' : batch s rs bs = Ok s' -> (rs <> [] \/ bs <> []) 
     contracts s' = contracts s2 /\ celems s' = celems s2 /\ ielems s' = ielems s2 /\
     tip s' = last_idx rs bs (tip s2).
 Proof.
-  intros H Hne. unfold batch in H.
+  intros H Hne. unfold batch, batch_g in H.
   assert ((do s1 <- fold_res revert_block rs s; do s2 <- fold_res apply_block bs s1;
-           Ok {| contracts := contracts s2; celems := celems s2; ielems := ielems s2;
+           Ok {| contracts := contracts s2; renewed := renewed s2; celems := celems s2; ielems := ielems s2;
                  tip := last_idx rs bs (tip s2) |}) = Ok s') as H'.
   { destruct rs, bs; try exact H. destruct Hne as [X|X]; congruence. }
   clear H. destruct (fold_res revert_block rs s) as [s1| |] eqn:H1; cbn [bind] in H'; try discriminate.
@@ -424,15 +444,25 @@ Qed.
 (** * Reachable states *)
 Definition rinv (s : state) (C : list block) : Prop := linked C /\ el_inv s C /\ tip_ok s C.
 
+(* RenewV2Contract touches neither element table nor the tip marker *)
+Lemma renew_fields s c r : let s' := fst (step s (Renew c r)) in
+  celems s' = celems s /\ ielems s' = ielems s /\ tip s' = tip s.
+Proof.
+  unfold step; cbn [step_g]. unfold renew. destruct (known s c && negb (known s r)); cbn; auto.
+Qed.
+
 Lemma reach_rinv s C hm : reach s C hm -> rinv s C.
 Proof.
-  induction 1 as [|s C hm c R IH|s C hm rs bs s' R IH F H|s C hm R IH].
+  induction 1 as [|s C hm c R IH|s C hm rs bs s' R IH F H|s C hm R IH|s C hm c r R IH].
   - repeat split; cbn; auto.
-  - destruct IH as [L [E T]]. cbn [step]. destruct (known s c); cbn [fst]; repeat split; auto.
+  - destruct IH as [L [E T]]. unfold step; cbn [step_g]. destruct (known s c); cbn [fst]; repeat split; auto.
   - destruct IH as [L [E T]]. split; [exact (proj2 F)|]. split.
     + exact (el_inv_batch s C rs bs s' E L F H).
     + exact (tip_ok_batch s C rs bs s' L T F H).
   - repeat split; cbn; auto.
+  - destruct IH as [L [E T]]. destruct (renew_fields s c r) as [A [B D]]. split; [exact L|]. split.
+    + exact (el_inv_ext s _ C E A B).
+    + unfold tip_ok in *. destruct C; [exact I|]. rewrite D. exact T.
 Qed.
 
 (* all stored elements carry a proof for the processed tip *)
@@ -590,11 +620,12 @@ Qed.
 
 Lemma reach_jinv s C hm : reach s C hm -> jinv s C hm.
 Proof.
-  induction 1 as [|s C hm c R IH|s C hm rs bs s' R IH F H|s C hm R IH].
+  induction 1 as [|s C hm c R IH|s C hm rs bs s' R IH F H|s C hm R IH|s C hm c r R IH].
   - repeat split; cbn; intros; try contradiction.
-  - cbn [step]. destruct (known s c); cbn [fst]; [exact IH|]. exact (jinv_ext s _ C hm IH eq_refl).
+  - unfold step; cbn [step_g]. destruct (known s c); cbn [fst]; [exact IH|]. exact (jinv_ext s _ C hm IH eq_refl).
   - exact (jinv_batch s C hm rs bs s' IH (proj1 (reach_rinv s C hm R)) F H).
   - repeat split; cbn; intros; try contradiction.
+  - exact (jinv_ext s _ C hm IH (proj1 (proj2 (renew_fields s c r)))).
 Qed.
 
 (* the stored chain indices: on the processed best chain, inside the retention window, and complete
@@ -617,6 +648,7 @@ Fixpoint wf_ops (s : state) (C : list block) (l : list op) : Prop :=
   match l with
   | [] => True
   | AddContract c :: t => wf_ops (fst (step s (AddContract c))) C t
+  | Renew c r :: t => wf_ops (fst (step s (Renew c r))) C t
   | Batch rs bs :: t =>
       match batch s rs bs with
       | Ok s' => wf_batch C rs bs /\ wf_ops s' (chain_after C rs bs) t
@@ -630,6 +662,7 @@ Fixpoint ghost (s : state) (C : list block) (hm : N) (l : list op) : list block 
   match l with
   | [] => (C, hm)
   | AddContract c :: t => ghost (fst (step s (AddContract c))) C hm t
+  | Renew c r :: t => ghost (fst (step s (Renew c r))) C hm t
   | Batch rs bs :: t =>
       match batch s rs bs with
       | Ok s' => ghost s' (chain_after C rs bs) (hmax_after hm bs) t
@@ -645,14 +678,15 @@ Lemma runs_reach : forall l s C hm, reach s C hm -> wf_ops s C l ->
   reach (runs s l) (fst (ghost s C hm l)) (snd (ghost s C hm l)).
 Proof.
   induction l as [|o t IH]; intros s C hm R W; [exact R|].
-  destruct o as [c|rs bs| |]; cbn [wf_ops ghost] in *; unfold runs; cbn [fold_left].
+  destruct o as [c|c r|rs bs| |]; cbn [wf_ops ghost] in *; unfold runs; cbn [fold_left].
   - apply IH; [|exact W]. apply reach_add. exact R.
-  - cbn [step]. destruct (batch s rs bs) as [s'| |] eqn:E; cbn [fst].
+  - apply IH; [|exact W]. apply reach_renew. exact R.
+  - unfold step at 2; cbn [step_g]. fold (batch s rs bs). destruct (batch s rs bs) as [s'| |] eqn:E; cbn [fst].
     + destruct W as [F W]. apply IH; [|exact W]. exact (reach_batch s C hm rs bs s' R F E).
     + apply IH; assumption.
     + apply IH; assumption.
-  - cbn [step fst]. apply IH; [|exact W]. apply (reach_reset s C hm R).
-  - cbn [step fst]. apply IH; assumption.
+  - unfold step at 2; cbn [step_g fst]. apply IH; [|exact W]. apply (reach_reset s C hm R).
+  - unfold step at 2; cbn [step_g fst]. apply IH; assumption.
 Qed.
 
 (** * A concrete history (non-vacuity): contract formed in block 1, revised in block 2, then a
@@ -685,9 +719,9 @@ Qed.
 Lemma nonvacuous_witness :
   reach (runs init wit_ops1) [wb2; wb1; wb0] 2 /\
   snd (step (runs init wit_ops1) Observe) =
-    OState [(1%N, true, 2%N)] [(ix 0 1, true); (ix 1 2, true); (ix 2 3, true)] (Some (ix 2 3)) /\
+    OState [(1%N, true, 2%N)] [(ix 0 1, true); (ix 1 2, true); (ix 2 3, true)] (Some (ix 2 3)) [] /\
   reach (runs init wit_ops) [wb1'; wb0] 2 /\
-  snd (step (runs init wit_ops) Observe) = OState [] [(ix 0 1, true); (ix 1 4, true)] (Some (ix 1 4)).
+  snd (step (runs init wit_ops) Observe) = OState [] [(ix 0 1, true); (ix 1 4, true)] (Some (ix 1 4)) [].
 Proof.
   assert (wf_ops init [] wit_ops1) as W1.
   { pose proof wit_wf as W. cbn [wit_ops wit_ops1 app wf_ops] in *.
